@@ -23,6 +23,7 @@ import (
 	"context"
 	"fmt"
 	"io"
+	"os"
 	"runtime"
 	"sort"
 	"strings"
@@ -51,18 +52,24 @@ type c16BootEv struct {
 }
 
 type c16Snap struct {
-	Ctrs          []c16Ctr       `json:"containers"`
-	NTypes        int            `json:"ntypes"`
-	Idle          map[int]int    `json:"idle"`
-	Booting       map[int]int    `json:"booting"`
-	OmitZero      bool           `json:"omit_zero_types"` // Unallocated() leaves out types without workers
-	AtQuota       bool           `json:"at_quota"`
-	QuotaAfterNth int            `json:"quota_error_after_nth_create"` // 0 = never
-	CreateOK      map[int]bool   `json:"create_ok"`
-	CreateBudget  int            `json:"create_budget"` // <0 = unlimited
-	Boot          []c16BootEv    `json:"boot_events"`
-	Order         []int          `json:"order"` // order of Containers in the queue stub
-	TypeNames     map[int]string `json:"-"`
+	Ctrs          []c16Ctr     `json:"containers"`
+	NTypes        int          `json:"ntypes"`
+	Idle          map[int]int  `json:"idle"`
+	Booting       map[int]int  `json:"booting"`
+	OmitZero      bool         `json:"omit_zero_types"` // Unallocated() leaves out types without workers
+	AtQuota       bool         `json:"at_quota"`
+	QuotaAfterNth int          `json:"quota_error_after_nth_create"` // 0 = never
+	CreateOK      map[int]bool `json:"create_ok"`
+	CreateBudget  int          `json:"create_budget"` // <0 = unlimited
+	Boot          []c16BootEv  `json:"boot_events"`
+	Order         []int        `json:"order"` // order of Containers in the queue stub
+	// Outside the registered model (only with VERIF_C16_EXT=1, never in a
+	// check): Create results that change from failure to success during the
+	// pass (a throttle that lifts) and workers that become idle without
+	// having been booting (a running worker finishing).
+	ExtCreateOKFromNth int            `json:"ext_create_ok_from_nth,omitempty"`
+	ExtIdle            []c16BootEv    `json:"ext_idle_events,omitempty"`
+	TypeNames          map[int]string `json:"-"`
 }
 
 type c16Call struct {
@@ -75,22 +82,24 @@ type c16Call struct {
 // ------------------------------------------------------------ recording pool
 
 type c16Pool struct {
-	mtx        sync.Mutex
-	types      map[int]arvados.InstanceType
-	typeIdx    map[arvados.InstanceType]int
-	idle       map[int]int
-	booting    map[int]int
-	running    map[string]time.Time
-	atQuota    bool
-	quotaNth   int
-	createOK   map[int]bool
-	budget     int
-	boot       []c16BootEv
-	omitZero   bool
-	ncall      int
-	ncreate    int
-	log        []c16Call
-	bootsFired int
+	mtx           sync.Mutex
+	types         map[int]arvados.InstanceType
+	typeIdx       map[arvados.InstanceType]int
+	idle          map[int]int
+	booting       map[int]int
+	running       map[string]time.Time
+	atQuota       bool
+	quotaNth      int
+	createOK      map[int]bool
+	budget        int
+	boot          []c16BootEv
+	omitZero      bool
+	ncall         int
+	ncreate       int
+	log           []c16Call
+	bootsFired    int
+	extCreateFrom int
+	extIdle       []c16BootEv
 	// latch evidence: a start of this type failed earlier in the pass
 	startFailed          map[int]bool
 	idleAfterFailedStart map[int]bool
@@ -107,6 +116,12 @@ func (p *c16Pool) tick() {
 			if p.startFailed[ev.Type] {
 				p.idleAfterFailedStart[ev.Type] = true
 			}
+		}
+	}
+	for _, ev := range p.extIdle {
+		if ev.BeforeCall == p.ncall {
+			p.idle[ev.Type]++
+			p.log = append(p.log, c16Call{Op: "(worker-became-idle)", Arg: fmt.Sprintf("type%d", ev.Type), OK: true})
 		}
 	}
 	p.ncall++
@@ -161,6 +176,9 @@ func (p *c16Pool) Create(it arvados.InstanceType) bool {
 	p.tick()
 	i := p.typeIdx[it]
 	ok := !p.atQuota && p.createOK[i] && p.budget != 0
+	if p.extCreateFrom > 0 {
+		ok = !p.atQuota && p.ncreate+1 >= p.extCreateFrom
+	}
 	if ok {
 		if p.budget > 0 {
 			p.budget--
@@ -316,6 +334,15 @@ func c16GenSnap(rng *verifkit.Rand) *c16Snap {
 		s.Boot = append(s.Boot, c16BootEv{BeforeCall: rng.Range(0, 3*n), Type: rng.Range(1, s.NTypes)})
 	}
 	s.Order = rng.Perm(n)
+	if os.Getenv("VERIF_C16_EXT") != "" {
+		r2 := rng.Fork()
+		if r2.Bool() {
+			s.ExtCreateOKFromNth = r2.Range(2, 4)
+		}
+		for i, ne := 0, r2.Range(0, 2); i < ne; i++ {
+			s.ExtIdle = append(s.ExtIdle, c16BootEv{BeforeCall: r2.Range(0, 3*n), Type: r2.Range(1, s.NTypes)})
+		}
+	}
 	return s
 }
 
@@ -328,6 +355,7 @@ func c16UUID(id int) string { return test.ContainerUUID(id) }
 type c16Outcome struct {
 	log                                                                      []c16Call
 	startedOK                                                                map[string]bool
+	createFailed                                                             map[int]bool
 	startTried                                                               map[string]bool
 	unlocked                                                                 map[string]bool
 	sawQuota                                                                 bool
@@ -347,7 +375,7 @@ func c16RunPass(s *c16Snap) *c16Outcome {
 		types: types, typeIdx: typeIdx,
 		idle: map[int]int{}, booting: map[int]int{}, running: map[string]time.Time{},
 		atQuota: s.AtQuota, quotaNth: s.QuotaAfterNth, createOK: s.CreateOK, budget: s.CreateBudget,
-		boot: s.Boot, omitZero: s.OmitZero,
+		boot: s.Boot, omitZero: s.OmitZero, extCreateFrom: s.ExtCreateOKFromNth, extIdle: s.ExtIdle,
 		startFailed: map[int]bool{}, idleAfterFailedStart: map[int]bool{},
 	}
 	for t := 1; t <= s.NTypes; t++ {
@@ -383,7 +411,7 @@ func c16RunPass(s *c16Snap) *c16Outcome {
 
 	sch.runQueue()
 
-	o := &c16Outcome{startedOK: map[string]bool{}, startTried: map[string]bool{}, unlocked: map[string]bool{}}
+	o := &c16Outcome{createFailed: map[int]bool{}, startedOK: map[string]bool{}, startTried: map[string]bool{}, unlocked: map[string]bool{}}
 	pool.mtx.Lock()
 	o.log = append([]c16Call(nil), pool.log...)
 	o.bootsFired = pool.bootsFired
@@ -406,6 +434,12 @@ func c16RunPass(s *c16Snap) *c16Outcome {
 			o.creates++
 			if c.OK {
 				o.createsOK++
+			} else {
+				for t, it := range types {
+					if it.Name == c.Arg {
+						o.createFailed[t] = true
+					}
+				}
 			}
 		case "AtQuota":
 			if c.OK {
@@ -470,6 +504,8 @@ func c16JudgePass(run *verifkit.Run, s *c16Snap, o *c16Outcome) (pairs1, pairs2,
 				why = "higher-unlocked"
 			case o.startTried[ua]:
 				why = "after-failed-start-of-higher"
+			case o.createFailed[a.Type]:
+				why = "higher-skipped-after-failed-create"
 			}
 			run.Violation("C16:b:lower-priority-started-first:"+why,
 				detail(fmt.Sprintf("container %d (priority %d) was started on type%d while Locked container %d (priority %d, same type) was still waiting for a worker", b.ID, b.Priority, b.Type, a.ID, a.Priority)), s)
